@@ -87,7 +87,7 @@ class address_offsets:
                   " 0, max(0, nseg(self)))"]
     # the enumeration is consumed to its end: the function does not return from inside the loop
     ensures = ["@check $k0 == gen_len($seq0)"]
-    may_raise = ["ELFError", "OverflowError"]
+    may_raise = ["ELFError", "OverflowError", "TypeError"]     # TypeError: PN_XNUM and a section 0 whose link lies beyond the file
 from specs.contents import inflated, inflatable, zeros, inflated_len
 
 SHF_COMPRESSED = 0x800
